@@ -300,6 +300,38 @@ def gen_shrink(rng, kind, metric, prm):
     return lines
 
 
+def gen_bulk_on_leaf_root(rng, kind, metric):
+    """generator class *bulk add onto a leaf root holding removed elements*: a small tree whose root is still a leaf
+    (n0 <= leaf size elements), one or two removals of NON-pivot elements with the removal cache not full (they stay
+    physically in the leaf, marked in removed_), then ONE add(vector) large enough to overflow and split the root, then
+    size / list / k-nearest / radius and a query at every removed value.  (add(vector) on an existing tree must go through
+    add(), which rebuilds when a leaf with marked elements must be split.)  Default-like and small leaf sizes."""
+    deg, mn, mx = rng.range(2, 6), rng.range(2, 6), rng.range(2, 8)
+    leaf = rng.choice([50, 50, 12, 8, 6, 4])
+    leaf = max(leaf, deg, mx)
+    prm = {"deg": deg, "min": mn, "max": mx, "leaf": leaf, "cache": rng.choice([2, 3, 5, 500]), "rebal": rng.below(2), "seed": rng.below(1000)}
+    lines = [header(kind, metric, prm)]
+    n0 = rng.range(3, leaf)
+    k = leaf + 1 - n0 + rng.range(1, 6)
+    pts = distinct_points(rng, metric, n0 + k)
+    first, bulk = pts[:n0], pts[n0:]
+    lines += (["addv %d %s" % (n0, " ".join(ps(p) for p in first))] if rng.chance(1, 2) else ["add " + ps(p) for p in first])
+    nv = 1 if prm["cache"] == 2 or rng.chance(1, 2) else 2
+    pool = list(first[1:])
+    victims = []
+    for _ in range(min(nv, len(pool))):
+        v = rng.choice(pool)
+        pool.remove(v)
+        victims.append(v)
+    lines += ["rm " + ps(v) for v in victims]
+    q = rng.choice(pts)
+    lines.append("addv %d %s" % (len(bulk), " ".join(ps(p) for p in bulk)))
+    lines += ["size", "list", "nk %s %d" % (ps(q), len(pts) + 2), "nr %s %d" % (ps(q), HUGE)]
+    lines += ["nk %s 1" % ps(v) for v in victims] + ["nr %s 0" % ps(v) for v in victims]
+    lines.append("nst " + ps(victims[0] if victims else q))
+    return lines
+
+
 def gen_refill(rng, kind, metric, dname):
     """generator class *remove-then-clear-then-refill*: fill, remove a few elements with the removal cache
     not full, clear(), add the same values again in the same order (same allocation pattern, so freed leaf
@@ -1334,6 +1366,12 @@ def run(ck):
             prm = (gen_params(r, safe=True) if j % 2 else gen_boundary_params(r)) if kind.startswith("gnat") else None
             jobs.append((gen_shrink(r, kind, shr_metrics[j % 4], prm), "shrink-after-queries"))
             ck.count("shrink-after-queries:generated:" + kind)
+    # generator class bulk add(vector) onto a leaf root that holds marked-removed elements (both GNAT variants)
+    for kind in ("gnat", "gnatnts"):
+        for j in range(12 if ck.tier == "quick" else 120):
+            r = ck.rng.fork("bulkleaf-%s-%d" % (kind, j))
+            jobs.append((gen_bulk_on_leaf_root(r, kind, shr_metrics[j % 4]), "bulk-add-on-leaf-root-with-removed"))
+            ck.count("bulk-add-on-leaf-root-with-removed:generated:" + kind)
     # generator class remove-then-clear-then-refill (both GNAT variants)
     nref = 40 if ck.tier == "quick" else 400
     for kind in ("gnat", "gnatnts"):
